@@ -682,6 +682,12 @@ outerLoop:
 		}
 	}
 
+	// The min-content excess of a spanning cell may have been given to a
+	// column whose max-content width stays smaller.
+	for i, minContent := range minContentWidths {
+		maxContentWidths[i] = pr.Max(maxContentWidths[i], minContent)
+	}
+
 	// Calculate the max- and min-content widths of table and columns
 	var (
 		smallpercentageContributions               []pr.Float
